@@ -9,10 +9,12 @@ CONSTANTS
   NP = 1
   Limit = 2
   MaxAErr = 1
+  AAMs = {TRUE, FALSE}
   MaxFail = 2
   MaxAbort = 2
 SPECIFICATION SpecConn
 INVARIANT NumConnsExact
+INVARIANT AcceptServes
 INVARIANT AcceptLoopAlive
 INVARIANT Framed
 PROPERTY RefusedOnlyAtLimit
